@@ -27,7 +27,7 @@ def fact_key(v):
 
 
 
-PURE_STDLIB = frozenset(["contextlib", "functools", "operator", "itertools", "collections", "string", "math", "enum", "bisect",
+PURE_STDLIB = frozenset(["contextlib", "functools", "operator", "itertools", "collections", "string", "math", "enum", "bisect", "inspect",
                          "binascii", "codecs", "dataclasses", "array", "heapq", "copy", "struct", "textwrap", "numbers", "types"])
 
 def spec_to_directive(spec, conversion=-1):
@@ -438,6 +438,14 @@ class OpsMixin:
                 return Builtin("itemgetter(%r)" % (key,), lambda a, k, n, f: self.get_item(a[0], key, n, f))
         if isinstance(fn, External) and fn.name in ("importlib.util.find_spec", "importlib.import_module") and args \
                 and isinstance(args[0], str):
+            if fn.name.endswith("import_module") and args[0].startswith("."):
+                pkg = args[1] if len(args) > 1 else kwargs.get("package")
+                if not isinstance(pkg, str):
+                    raise AnalysisError("unmodelled-stdlib", "relative import_module without a constant package at %s" % frame.where(node))
+                level = len(args[0]) - len(args[0].lstrip("."))
+                base = pkg.split(".")
+                base = base[: len(base) - (level - 1)] if level > 1 else base
+                args = [".".join(base + ([args[0].lstrip(".")] if args[0].lstrip(".") else []))]
             top = args[0].split(".")[0]
             absent = top in getattr(self, "missing_modules", ())
             if fn.name.endswith("import_module") and not absent and self.module_path(args[0]) is not None and len(args) == 1:
@@ -510,6 +518,10 @@ class OpsMixin:
             return Unknown("call of unknown: %s" % fn.reason)
         if isinstance(fn, SymAny):
             return SymAny(fn.path + ("()",))
+        if isinstance(fn, Instance) and isinstance(fn.cls, ClassVal):
+            cf, cowner = fn.cls.lookup("__call__")          # an object whose class says what calling it means
+            if isinstance(cf, FuncVal):
+                return self.call_function(cf, [fn] + list(args), kwargs, node, frame)
         self.event("not-callable", value=fn, where=frame.where(node), node=node)
         raise PyRaise(Instance(self.bclasses["TypeError"], ("%r object is not callable" % self.kind_of(fn),)),
                       node, frame.where(node))
@@ -896,6 +908,11 @@ class OpsMixin:
 
     def contains(self, container, item, node, frame):
         item = norm_int(item)
+        if isinstance(container, ChainMapVal):
+            for m in container.maps:
+                if self.contains(m, item, node, frame):
+                    return True
+            return False
         if isinstance(container, ClassVal) and self.enum_class_of(container) is not None:
             en = self.enum_class_of(container)
             if isinstance(item, (IntEnumMember, EnumMember)):
@@ -1067,10 +1084,43 @@ class OpsMixin:
                 return {"|": a_ | b_, "&": a_ & b_, "-": a_ - b_, "^": a_ ^ b_}[op]
             except TypeError:
                 return Unknown("set operation on unhashable items")
-        self.event("type-error", op=op, left=a, right=b, where=frame.where(node), node=node)
-        raise PyRaise(Instance(self.bclasses["TypeError"],
-                               ("unsupported operand type(s) for %s: %r and %r" % (op, self.kind_of(a), self.kind_of(b)),)),
-                      node, frame.where(node))
+        if op == "|" and isinstance(a, dict) and isinstance(b, dict) and "**" not in a and "**" not in b:
+            r = dict(a)
+            r.update(b)                # dict | dict: a new dictionary, the right operand's values win
+            return r
+        # an operator method the class of an operand defines
+        DUNDER = {"+": "add", "-": "sub", "*": "mul", "//": "floordiv", "/": "truediv", "%": "mod", "<<": "lshift", ">>": "rshift",
+                  "&": "and", "|": "or", "^": "xor", "**": "pow", "@": "matmul"}
+        if op in DUNDER:
+            for obj_, other, nm in ((a, b, "__%s__" % DUNDER[op]), (b, a, "__r%s__" % DUNDER[op])):
+                if isinstance(obj_, Instance) and isinstance(obj_.cls, ClassVal):
+                    f_, owner_ = obj_.cls.lookup(nm)
+                    if isinstance(f_, FuncVal):
+                        return self.call_function(f_, [obj_, other], {}, node, frame)
+        plain = (type(None), bool, int, float, str, bytes, list, tuple, dict, set, frozenset, range)
+        if type(a) in plain and type(b) in plain and self.is_static(a) and self.is_static(b):
+            # two ordinary constants: python itself says what the operator does with them (or that it does not apply)
+            import operator as _op
+            fn = {"+": _op.add, "-": _op.sub, "*": _op.mul, "//": _op.floordiv, "/": _op.truediv, "%": _op.mod, "<<": _op.lshift,
+                  ">>": _op.rshift, "&": _op.and_, "|": _op.or_, "^": _op.xor, "**": _op.pow}.get(op)
+            if fn is not None:
+                try:
+                    return fn(a, b)
+                except TypeError as ex:
+                    self.event("type-error", op=op, left=a, right=b, where=frame.where(node), node=node)
+                    raise PyRaise(Instance(self.bclasses["TypeError"], (str(ex),)), node, frame.where(node))
+                except Exception as ex:
+                    ecls = self.bclasses.get(type(ex).__name__)
+                    if ecls is not None:
+                        raise PyRaise(Instance(ecls, (str(ex),)), node, frame.where(node))
+                    raise AnalysisError("unmodelled-builtin", "%s %s %s raises %s at %s" % (self.kind_of(a), op, self.kind_of(b), type(ex).__name__, frame.where(node)))
+        if isinstance(a, (Instance, ClassVal, FuncVal, ModuleVal)) or isinstance(b, (Instance, ClassVal, FuncVal, ModuleVal)) or a is None or b is None:
+            self.event("type-error", op=op, left=a, right=b, where=frame.where(node), node=node)
+            raise PyRaise(Instance(self.bclasses["TypeError"],
+                                   ("unsupported operand type(s) for %s: %r and %r" % (op, self.kind_of(a), self.kind_of(b)),)),
+                          node, frame.where(node))
+        # anything else: the model does not know this combination -- python might
+        raise AnalysisError("unmodelled-builtin", "operator %s on %s and %s at %s" % (op, self.kind_of(a), self.kind_of(b), frame.where(node)))
 
     def kind_of(self, v):
         v = norm_int(v)
@@ -1247,6 +1297,11 @@ class OpsMixin:
             return v
         if isinstance(v, (list, tuple, range, str, bytes)):
             return list(v)
+        if isinstance(v, ChainMapVal):
+            out = {}
+            for m in reversed(v.maps):
+                out.update(m)
+            return list(out.keys())
         if isinstance(v, CountVal):
             from .stdlib_model import COUNT_ITEMS
             return TruncList(v.start + i * v.step for i in range(COUNT_ITEMS))
@@ -1305,6 +1360,8 @@ class OpsMixin:
             return len(v)
         if isinstance(v, ClassVal) and self.enum_class_of(v) is not None:
             return len(self.enum_class_of(v).enum_unique)
+        if isinstance(v, ChainMapVal):
+            return len(self.iterate(v, node, frame))
         if isinstance(v, Buf):
             return v.length
         if isinstance(v, View):
